@@ -29,7 +29,9 @@
    NewPeerIDFromAddress, packets with foreign src ids passing through the packet reader; the
    environment action OtherIds) -- the connection keeps exactly the identity that was proven. *)
 EXTENDS Integers, Sequences, FiniteSets, TLC
-CONSTANTS DialerSelfCheck,  \* TRUE: the required behaviour (a dialer refuses its own identity, as the acceptor does);
+CONSTANTS Suites,           \* secure suites a run may negotiate: "none", "tls:<aead>", "ecdhe:<aead>" -- the session secret and
+                            \* everything below must not depend on it: every property holds for every suite
+          DialerSelfCheck,  \* TRUE: the required behaviour (a dialer refuses its own identity, as the acceptor does);
                             \* FALSE: model of a dialer without that test (used as a probe: the invariant must fail)
           MaxChurn,     \* how often the environment action OtherIds may happen in a run
           Sessions,     \* subset of {1, 2, 3} (real dialers) \cup {4, 5} (connections opened by transcript replay)
@@ -53,9 +55,10 @@ VARIABLES dph, did,     \* dialer side of each session: "idle" | "wait" | "acc" 
           src,          \* for a replayed connection: the session whose transcript is replayed
           amsg, dmsg,   \* the message on which the identity was assigned
           seen,         \* signature terms that have travelled over the network
+          suite,        \* the secure suite the nodes of this run negotiate (chosen initially)
           churn,        \* number of OtherIds events so far
           nops, hist
-vars == <<dph, did, aph, aid, deph, aeph, src, amsg, dmsg, seen, churn, nops, hist>>
+vars == <<dph, did, aph, aid, deph, aeph, src, amsg, dmsg, seen, suite, churn, nops, hist>>
 
 Msg(pkw, pkf, sw, sc, sf, err) == [pkw |-> pkw, pkf |-> pkf, sw |-> sw, sc |-> sc, sf |-> sf, err |-> err]
 \* what the attacker can put into a signature message
@@ -78,7 +81,8 @@ Verify(m, s) ==
 AccProj == {[s |-> s, side |-> "a", id |-> aid[s]] : s \in {x \in Sessions : aph[x] = "acc"}}
            \cup {[s |-> s, side |-> "d", id |-> did[s]] : s \in {x \in Sessions : dph[x] = "acc"}}
 Log(e) == /\ nops' = nops + 1
-          /\ hist' = IF RecordHist THEN Append(hist, e @@ [acc |-> AccProj']) ELSE hist
+          /\ suite' = suite
+          /\ hist' = IF RecordHist THEN Append(hist, e @@ [acc |-> AccProj', suite |-> suite]) ELSE hist
 Rec(op, s, m, res, id) == [op |-> op, s |-> s, pkw |-> m.pkw, pkf |-> m.pkf, sw |-> m.sw, sc |-> m.sc, sf |-> m.sf,
                             err |-> m.err, res |-> res, id |-> id]
 NoMsg == Msg("", "", "", 0, "", FALSE)
@@ -87,7 +91,7 @@ Init == /\ dph = [s \in Sessions |-> "idle"] /\ did = [s \in Sessions |-> ""]
         /\ aph = [s \in Sessions |-> "idle"] /\ aid = [s \in Sessions |-> ""]
         /\ deph = [s \in Sessions |-> 0] /\ aeph = [s \in Sessions |-> 0] /\ src = [s \in Sessions |-> 0]
         /\ amsg = [s \in Sessions |-> NoMsg] /\ dmsg = [s \in Sessions |-> NoMsg]
-        /\ seen = {} /\ churn = 0 /\ nops = 0 /\ hist = <<>>
+        /\ seen = {} /\ suite \in Suites /\ churn = 0 /\ nops = 0 /\ hist = <<>>
 
 \* connection + key exchange of session s, the dialer emits its genuine SignatureRequest
 \* (both sides generate a fresh ephemeral key: 10+s and 20+s stand for fresh random values)
@@ -222,6 +226,8 @@ AcceptorFresh == \A s, t \in Sessions : (s # t /\ aeph[s] # 0 /\ aeph[t] # 0) =>
 SecretsDistinct == \A s, t \in Sessions : (s # t /\ aeph[s] # 0 /\ aeph[t] # 0) =>
                       /\ (Secret(s) = Secret(t) => (deph[s] = deph[t] /\ aeph[s] = aeph[t]))
                       /\ Secret(s) # Secret(t)
+\* every session that finished its key exchange HAS a secret made of both contributions, whatever the secure suite
+SecretExists == \A s \in Sessions : (aph[s] # "idle" /\ aeph[s] # 0) => (deph[s] # 0 /\ aeph[s] # 0 /\ suite \in Suites)
 \* ... and a connection opened by replaying a recorded transcript is never identified as anybody
 ReplayedNeverIdentified == \A t \in Replayed : aph[t] # "acc"
 \* an identity is assigned only to a party that holds that identity's key: a node never identifies the other end of
